@@ -154,7 +154,7 @@ def _run(ctx):
                          count_as="replay")
 
     # 3. code -> spec: seeded random calls ----------------------------------------------------------------------------------
-    n_exec = 120 if quick else 1500
+    n_exec = 300 if quick else 2000
     for mode in ("exact", "guard"):
         tr = ctx.tmp("random_%s.ndjson" % mode)
         seed = ctx.seed * 2 + (1 if mode == "guard" else 0)
